@@ -402,9 +402,15 @@ def run_c18(tier, seed):
     jobs += [("after-failed-request", 0, None), ("variable-as-object", 0, None), ("fast-clock", 0, None)]
     global _JOB_TERMS
     _JOB_TERMS = terms
-    import multiprocessing as mproc
-    with mproc.get_context("fork").Pool(WORKERS) as pool:
-        results = pool.map(_config_job, jobs)
+    from .core import run_jobs
+    raw = run_jobs(_config_job, jobs)
+    results = []
+    for job, got in zip(jobs, raw):
+        if got[0] == "ok":
+            results.append(got[1])
+        else:
+            st.violation({"why": f"configuration {job} crashed the interpreter (exit code {got[1]})", "config": list(map(str, job))})
+            results.append(list(reference))
     for (kind, k, order), d in zip(jobs, results):
         st.inc("nontrivial")
         if kind == "ctl":
